@@ -1,6 +1,7 @@
 (** C17 -- property theorems only.  Each is closed by [exact] of a lemma of [Proofs], pinned by
     [Check], and followed by [Print Assumptions]. *)
-From Sci Require Import Defrag.Model Defrag.Spec Defrag.Proofs.
+From Sci Require Import Defrag.Model Defrag.Spec Defrag.Proofs Defrag.Live.
+From Coq Require Import Permutation.
 Local Open Scope N_scope.
 
 (** Every emitted packet consists entirely of bytes received in frames of that same packet
@@ -82,6 +83,25 @@ Proof.
   intros Hi. eapply mask_bounded. apply (qi_act _ _ DQ Hi).
 Qed.
 Print Assumptions bounded_state.
+
+(** "it is emitted whenever all its frames arrive before its slot is reclaimed, regardless
+    of reordering": the frames Fragmenter::send produces for a multi-frame packet, in ANY
+    order, into the slot initialised for that packet, are all accepted, and exactly the frame
+    that completes the set makes the slot emit the packet, byte-identical.  (Single-frame
+    packets take the fast path: emitted_bytes_own_epoch.)
+    PARTIAL: stated for one slot between two initialisations and without duplicated frames
+    in between (a duplicate is rejected with Err Duplicate and leaves the slot unchanged in
+    the model; that step is covered by the correspondence, not by this theorem). *)
+Theorem all_frames_any_order_emit_partial :
+  forall (B : Type) (mtu so : N) (data : list B) frames nxt perm (q : queue B) f0,
+    fragmenter_send mtu so data = Ok (frames, nxt) ->
+    (2 <= length frames)%nat ->
+    Permutation perm frames ->
+    length (q_buf q) = N.to_nat MAX_PACKET_SIZE -> h_so (f_hdr f0) = so ->
+    feed (queue_init q f0) perm
+    = repeat (Ok None) (length frames - 1) ++ [Ok (Some (so, data))].
+Proof. exact @all_frames_any_order_emit. Qed.
+Print Assumptions all_frames_any_order_emit_partial.
 
 (** non-vacuity: a three-frame packet delivered last-frame-first is emitted, intact *)
 Example reorder_emits :
